@@ -159,8 +159,10 @@ func (r *yieldRewriter) rewriteStmts(
 	}
 
 	if isLast {
-		if children.kind == kindDelay {
-			r.generateLastNormalIfNecessary(children)
+		// following differs from children after a yield in for-init / switch-init:
+		// it is the callback body the stmt went to, the one to end with return
+		if following.kind == kindDelay {
+			r.generateLastNormalIfNecessary(following)
 		}
 	} else {
 		following = r.combineIfNecessary(following)
